@@ -169,7 +169,8 @@ Proof.
   destruct (mem_tid t (v_standby (s_vc s u))) eqn:M1.
   - apply mem_cnt in M1. destruct (in_standby_facts s t u (i_placed _ I1 t u) M1) as (l1 & l2 & _).
     apply Main; auto. intro y. rewrite vc_modvc. destruct (Nat.eqb y u) eqn:E; [apply Nat.eqb_eq in E; subst y|]; reflexivity.
-  - destruct (_ && _) eqn:M2; auto. apply andb_true_iff in M2. destruct M2 as [M2 M3]. apply mem_cnt in M2.
+  - destruct (mem_tid t (v_runq (s_vc s u)) && negb (tstate_eqb (th_state (s_th s t)) RUNNING)) eqn:M2; auto.
+    apply andb_true_iff in M2. destruct M2 as [M2 M3]. apply mem_cnt in M2.
     destruct (in_runq_facts s t u (i_placed _ I1 t u) M2) as (l1 & l2 & _).
     apply Main; auto. intro y. rewrite vc_modvc. destruct (Nat.eqb y u) eqn:E; [apply Nat.eqb_eq in E; subst y|]; reflexivity.
 Qed.
